@@ -243,7 +243,9 @@ class Gen:
                     p2 = self.ident(x2)
                     self.binders.append((p2, x2))
                     self.emit(": Int := ")
-                    de = self.expr_int(scope, 1)      # the default value: an expression of the enclosing scope
+                    # the default value: an expression of the enclosing scope, in which erg already binds the function's
+                    # own name (to a not yet assigned local: using it there fails at run time, so it is not used)
+                    de = self.expr_int([sc for sc in scope if sc[0] != f], 1)
                     d = [p2, nid(x2), de]
                     inner = [(x2, "I")] + inner
                     self.feat.add("default argument")
